@@ -53,7 +53,7 @@ def scan_assumptions(text):
     lines = text.split('\n')
     pats = [r'\bassume\s*\(', r'\badmit\s*\(', r'external_body', r'assume_specification', r'verifier::external',
             r'\baxiom\b', r'\buninterp\b', r'external_type_specification', r'external_fn_specification',
-            r'verifier::trusted', r'accept_recursive_types', r'reject_recursive_types']
+            r'verifier::trusted', r'accept_recursive_types', r'global size_of']
     rx = re.compile('|'.join(pats))
     for n, ln in enumerate(lines, 1):
         code = ln.split('//')[0]
